@@ -72,8 +72,8 @@ Fixpoint lexical (e : expr) : bool :=
   match e with
   | ENil | ELet _ _ _ | EFunc _ _ _ _ => false
   | EIdent i => ident_lexical i
-  | EInt t => (t_type t =? T_INT) && relex_word T_INT (t_lit t)
-  | EFloat t => (t_type t =? T_FLOAT) && relex_word T_FLOAT (t_lit t)
+  | EInt t => (t_type t =? T_INT) && relex_word T_INT (t_lit t) && go_int_ok (t_lit t)
+  | EFloat t => (t_type t =? T_FLOAT) && relex_word T_FLOAT (t_lit t) && go_float_ok (t_lit t)
   | EString t v => (t_type t =? T_STRING) && str_eqb v (t_lit t) && relex_string v
   | ERaw t v => (t_type t =? T_RAW_STRING) && str_eqb v (t_lit t) && relex_raw v
   | EBool t b => (((t_type t =? T_TRUE) && b) || ((t_type t =? T_FALSE) && negb b)) && relex_word (t_type t) (t_lit t)
